@@ -467,6 +467,28 @@ func genHist(stream string, seed uint64, n int) []GenCase {
 		c.Runs = []Run{{Obj: cnt(3), Polls: 5000}, {Obj: cnt(0), Polls: polls}, {Obj: cnt(0), Polls: polls}, {Obj: cnt(3), Polls: 5000}, {Obj: cnt(9000), Polls: 190000}}
 		out = append(out, GenCase{Case: c, Stream: stream, NonTrivial: true, Pair: "self", Role: "history"})
 	}
+	// the SAME host pointer handed to consecutive runs with its fields changed in between (the harness reuses
+	// the pointer for consecutive pointer-to-same-struct objects): every run reads the object as it is now
+	for k, script := range []string{
+		"seen = seen + 1; return [Count, Name, seen];",
+		"function get() { return [Count, Name]; } seen = seen + 1; if (Count == 2) { return 1 / 0; } return [get(), seen];",
+		"seen = seen + 1; foreach t in Tags { last = t; } return [Tags, last, seen];",
+	} {
+		mkp := func(cnt int64, name string, tags ...string) HV {
+			var els []HV
+			for _, t := range tags {
+				els = append(els, HV{Kind: "str", S: t})
+			}
+			st := HV{Kind: "struct", Fields: []HField{{"Count", true, HV{Kind: "int", IntKind: "int", I: cnt}}, {"Name", true, HV{Kind: "str", S: name}},
+				{"Tags", true, HV{Kind: "slice", ElemKind: "str", Els: els}}}}
+			return HV{Kind: "ptr", To: &st}
+		}
+		c := Case{ID: fmt.Sprintf("%s-sameptr-%d", stream, k), Opt: k%2 == 0, Fns: []HostFn{recFn()}, Tags: []string{"history", "same-pointer-mutated"}, Show: []string{"fresh"}, Script: script}
+		c.AddVar("seen", VInt(0))
+		c.Runs = []Run{{Obj: mkp(1, "a", "x"), Polls: defaultPolls}, {Obj: mkp(2, "b", "x", "y"), Polls: defaultPolls}, {Obj: mkp(2, "b", "x", "y"), Polls: defaultPolls},
+			{Obj: mkp(3, "c"), Polls: defaultPolls}, {Obj: mkp(1, "a", "z"), Polls: defaultPolls}}
+		out = append(out, GenCase{Case: c, Stream: stream, NonTrivial: true, Pair: "self", Role: "history"})
+	}
 	for k, pend := range []string{"return 100 + boom(1);", "return [1, 2, boom(1)];", "return helper2(7, 8, boom(1));", "x = {\"k\": boom(1)}; return x;", "return 100 + argc();", "return 100 + helper2(boom(1), 2, 3) + 5;"} {
 		for j, after := range []string{"x = print(Name); return x;", "if (printf(\"%s\", Name)) { return 1; } return 2;", "return rec(1) + 1;", "y = rec(2); return [y];"} {
 			flag := func(b bool) HV {
@@ -650,7 +672,11 @@ func genDet(stream string, seed uint64, n int, replicas int) []GenCase {
 		"x = {\"one\": 1, \"two\": 2, \"three\": 3, \"four\": 4, \"five\": 5, \"six\": 6, \"seven\": 7, \"eight\": 8}; return [x, keys(x), len(x)];",
 		"return sort([\"b\", \"a\", \"C\", \"A\", \"c\", \"B\"], true);",
 		"return {1: {2: {3: {\"b\": 1, \"a\": 2}}}};",
-		// many keys of different types that print the same: the order among them must be fixed too (by type)
+		// runs that end inside a top-level loop leave nothing behind: a second run is the first one again
+		"if (item) { rec(item); return 100; } foreach item in [5, 6] { return item; } return 7;",
+		"if (k) { return [k, v]; } foreach k, v in {\"a\": 1} { foreach c in \"xy\" { if (c == \"y\") { return c; } } } return 7;",
+		"if (item) { return 100; } foreach item in [5, 6] { rec(item); return 1 / 0; } return 7;",
+		"function f() { foreach q in [1, 2] { return q; } return 0; } if (q) { return 100; } foreach w in [3] { if (w) { return f() + w; } } return 7;",
 		"h = {1: 1, 1.0: 2, \"1\": 3, 2: 4, 2.0: 5, \"2\": 6, 3: 7, 3.0: 8, \"3\": 9, 10: 10, 10.0: 11, \"10\": 12, true: 13, \"true\": 14, false: 15, \"false\": 16}; s = \"\"; foreach k, v in h { s = s + type(k) + string(v) + \",\"; } return [s, keys(h), h];",
 		"h = {7.0: \"f\", 7: \"i\", 8.0: \"f\", 8: \"i\", 9.0: \"f\", 9: \"i\", 11.0: \"f\", 11: \"i\", 12.0: \"f\", 12: \"i\", 13.0: \"f\", 13: \"i\"}; s = \"\"; foreach k, v in h { s = s + v; } return [s, h];",
 		"h = {\"5\": \"s\", 5: \"i\", 5.0: \"f\", \"6\": \"s\", 6: \"i\", 6.0: \"f\", \"-1\": \"s\", -1: \"i\", -1.0: \"f\"}; return [keys(h), h, string(h)];",
@@ -720,6 +746,10 @@ func genApi(stream string, seed uint64, n int) []GenCase {
 	for _, s := range []string{"return k0();", "return k1() + k1();", "return [k0(), k1(), k2(), k3(), k4()];", "return first(1, 2, 3);", "return second(1, 2, 3);", "return third(1, 2);", "return sum(1, 2, 3, \"x\", 4.5);",
 		"return sum();", "nothing(1, 2); return 3;", "x = nothing(); return x;", "return len(\"abc\");", "return first(first(first(9)));", "return sum(k0(), second(1, 2), len(1));",
 		"return first([1, 2], {\"a\": 1});",
+		// a function of the host (or a built-in) wins over a script function of the same name, wherever it is defined
+		"function k0() { return 99; } return k0();", "x = k0(); function k0() { return 99; } return [x, k0()];", "function first(a, b) { return b; } return first(1, 2);",
+		"function upper(s) { return \"mine\"; } return upper(\"abc\");", "function sum(a) { return -1; } function mine(a) { return sum(a, a); } return mine(4);",
+		"function nothing() { return 5; } x = 1; nothing(); return x;", "function rec(a) { return 0; } rec(7); return 1;",
 		"a = list(1, 2); b = list(3, 4); return a;", "a = list(1, 2); b = list(3, 4); c = list(5); return [a, b, c];", "kept = list(\"x\", 1.5); rec(7, 8); first(9, 9); return kept;",
 		"if (!kept) { kept = list(1, 2, 3); } other = list(4, 5, 6); return [kept, other];", "function f(a, b) { return list(b, a); } x = f(1, 2); y = f(3, 4); return [x, y];",
 		"xs = []; foreach v in [1, 2, 3] { xs = list(v, xs); } return xs;", "rec(1); rec(2, 3); rec(); return 0;", "if (k2()) { return 1; } return 2;", "return !k2();", "return k3() == k3();", "foreach v in k4() { rec(v); } return 1;"} {
